@@ -123,6 +123,8 @@ fn exclude_for_pinned(op: simtypes::Op, args: &[&[u8]], a: &simtypes::Out, b: &s
         Op::Recode => args.len() >= 3 && args[0] == [Ty::SecretKeyEnum as u8] && (byte_codec(args[1][0]) || byte_codec(args[2][0])),
         Op::ValueEq => args.len() >= 4 && args[0] == [Ty::SecretKeyEnum as u8] && (byte_codec(args[1][0]) || byte_codec(args[3][0])),
         Op::EnumNew | Op::EnumFromHash | Op::EnumRandom | Op::EnumFromBe | Op::EnumFromLe => true,
+        // the trait-level share constructor returned the wrong share type in the old release (fixed finding F15)
+        Op::ScShareTrait => true,
         // decryption-share verification for non-Basic ciphertexts (old release always uses the Basic tag)
         Op::DShareVerify => args.len() >= 3 && args[2].last().map(|s| *s != 0).unwrap_or(true),
         // time-lock under MessageAugmentation (old release's ciphertexts were never openable)
